@@ -173,4 +173,18 @@ PROPS.update({
         "explanation": "component totality theorems (c08_*_partial) plus panic/timeout exploration of construction and matching on every generated and "
                        "degenerate case; Ok/Panic status of the modelled traversal compared with the implementation on every dumped automaton.",
         "technique": "catch_unwind + watchdog exploration over generated and degenerate inputs; Coq totality lemmas for components"},
+    "C10": {"subs": ["c10"], "level": "exploration",
+        "rule": "exhaustive: every ordered family of 1-3 not-equal sets over 3 (quick) / 4 (thorough) other keys on a common first key, each under "
+                "all 3^n node assignments; random: lists of 1-7 character constraints (strings, matrices), mixed port-graph constraint lists, "
+                "not-equal families with common or mixed first keys, conditioned(c, sat) calls, the helper constructors on plain data with "
+                "several mutex relations; non-trivial = >= 2 constraints and a tree with >= 2 non-root nodes",
+        "trusted_base": [KERNEL, EXTRACT, HARNESS, MODELLED + " (Model/CTree.v, CTreeChar.v, DomPGKeys.v <-> constraint_tree.rs, constraint_tree/build.rs, "
+                         "string/constraint.rs, portgraph/constraint.rs, portgraph/constraint/mutex.rs, utils::sort_with_indices)"],
+        "assumptions": COMMON_ASSUMPTIONS + ["IsConnected / HasNodeWeight are treated as opaque atoms in the brute-force faithfulness oracle (their truth is "
+                                             "drawn per (predicate, argument values)); IsNotEqual is evaluated on the node assignment"],
+        "timeout": 3000,
+        "explanation": "every tree the implementation returns is compared node for node (labels, child order, make_det) with the extracted model; "
+                       "valid indices, presence of the smallest constraint and faithfulness are checked by brute force over all truth assignments / "
+                       "small hosts.",
+        "technique": "exact tree comparison with the Gallina model + brute-force faithfulness over all assignments"},
 })
